@@ -5,6 +5,7 @@ import SignaloModel.Proofs.OwnedRuns
 import SignaloModel.Proofs.DequeSuffix
 import SignaloModel.Proofs.DequeExact
 import SignaloModel.Proofs.DequeCount
+import SignaloModel.Proofs.DequeCountMin
 /-!
 # C19 — Windowed filters drop every owned sample exactly once
 
@@ -13,6 +14,7 @@ The property theorems for C19: `#check` prints each statement, `#print axioms` i
 -/
 open SignaloModel
 
+#check @SignaloModel.Registry.owned_min_registry_count
 #check @SignaloModel.Registry.owned_max_registry_count
 #check @SignaloModel.Deque.taps_count_run
 #check @SignaloModel.Deque.taps_exact_run
@@ -33,6 +35,7 @@ open SignaloModel
 #check @Registry.owned_median_registry
 #check @Registry.run_append
 
+#print axioms SignaloModel.Registry.owned_min_registry_count
 #print axioms SignaloModel.Registry.owned_max_registry_count
 #print axioms SignaloModel.Deque.taps_count_run
 #print axioms SignaloModel.Deque.taps_exact_run
